@@ -7,7 +7,7 @@ Import ListNotations.
 
 Inductive crash_kind :=
 | CValueError | CTypeError | CUnboundLocal | CAttributeError | CAssertion
-| CIndexError | CKeyError | CUnicodeError | CRecursion | COutOfFuel | CNotImplemented.
+| CIndexError | CKeyError | CUnicodeError | CRecursion | COutOfFuel | CNotImplemented | CStructError.
 
 Inductive outcome (A E : Type) :=
 | Ok (a : A)
